@@ -1,0 +1,10 @@
+//go:build verif
+
+package signers
+
+// VerifRegistered returns the registered signer modules in registration order (read-only view for the verification harness).
+func VerifRegistered() []*Signer {
+	out := make([]*Signer, len(registered))
+	copy(out, registered)
+	return out
+}
